@@ -1097,6 +1097,9 @@ def check(ctx):
     for v in sub.violations:
         v.rule = r4.id
         r4.violations.append(v)
+    # a payload variable that is not found in the event parser's table is emitted under its own (Rust) spelling, `r#` included (shared with C12-D7)
+    from c12 import check_symbol_table_keys
+    check_symbol_table_keys(ctx.P, r4)
     r4.require_floor(6, "custom fall-through and splitter facts")
     rules.append(r4)
 
